@@ -181,6 +181,53 @@ func VerifC14Slide(j int) {
 	verif_reach("C14.slide.ok")
 }
 
+// VerifC14TwoSenders: two senders in one group. The receiver follows sender A's log for j messages (its reference window
+// slides j times); sender B has sent nothing through the log. A push of B's first message is inside B's own window and
+// must open: the references kept for one sender are not disturbed by the sliding of another sender's window.
+func VerifC14TwoSenders(j int) {
+	ctx := verif_background()
+	mk := func(name string) *secretStore {
+		s, err := newSecretStore(verif_datastore(name), &NewSecretStoreOptions{Keystore: verifKeystore(name), PreComputedKeysCount: 2, PrecomputeOutOfStoreGroupRefsCount: 2})
+		verif_assume(err == nil && s != nil)
+		return s
+	}
+	a, b, rcv := mk("sndA"), mk("sndB"), mk("rcv")
+	g := verifGroup(a, rcv, 3)
+	gpk, err := g.GetPubKey()
+	verif_assume(err == nil)
+	verif_assume(rcv.PutGroup(ctx, g) == nil)
+	_, rcvMD := verifLink(ctx, a, rcv, g)
+	bMD, _ := verifLink(ctx, b, rcv, g)
+	bRaw, _ := bMD.Device().Raw()
+	for i := 1; i <= j; i++ {
+		pay, _ := proto.Marshal(&protocoltypes.EncryptedMessage{Plaintext: verif_anyBytesNonNil("plainA")})
+		env, err := a.SealEnvelope(ctx, g, pay)
+		verif_assume(err == nil)
+		e, h, err := rcv.OpenEnvelopeHeaders(env, g)
+		verif_assume(err == nil)
+		_, err = rcv.OpenEnvelopePayload(ctx, e, h, gpk, rcvMD.Device(), verif_cidN(i))
+		verif_assert(err == nil, "C14.two: in-order log delivery of sender A opens")
+		verif_assert(rcv.UpdateOutOfStoreGroupReferences(ctx, h.DevicePk, h.Counter, g) == nil, "C14.two: references follow the log")
+	}
+	payB, _ := proto.Marshal(&protocoltypes.EncryptedMessage{Plaintext: verif_anyBytesNonNil("plainB")})
+	envB, err := b.SealEnvelope(ctx, g, payB)
+	verif_assume(err == nil)
+	e, h, err := rcv.OpenEnvelopeHeaders(envB, g)
+	verif_assume(err == nil)
+	oos, err := b.SealOutOfStoreMessageEnvelope(verif_cidN(100), e, h, g)
+	verif_assume(err == nil)
+	push, err := proto.Marshal(oos)
+	verif_assume(err == nil)
+	m, grp, clear, already, err := rcv.OpenOutOfStoreMessage(ctx, push)
+	verif_assert(err == nil, "C14.two: a push of another sender's first message opens, whatever the first sender's window did")
+	if err != nil {
+		return
+	}
+	verif_assert(verif_bytesEq(clear, payB) && m.Counter == 1 && verif_bytesEq(m.DevicePk, bRaw), "C14.two: opens to the original payload, sender and counter")
+	verif_assert(grp != nil && verif_bytesEq(grp.PublicKey, g.PublicKey) && !already, "C14.two: reports the group, and that the log has not delivered it")
+	verif_reach("C14.two.ok")
+}
+
 func VerifC14Witness() {
 	VerifC14Push(0, 1)
 	verif_assert(false, "C14.witness: reachable")
